@@ -278,7 +278,11 @@ def run_batch(chk, corpus, binary, placed, batch):
                     continue
                 try:
                     for klass, vals in canon.vectors_for(cdc, c, common.seed(), 6 if chk.tier == 'quick' else 24, extremes=True):
-                        body, fmap, sig, payloads = cdc.encode(c, vals)
+                        try:
+                            body, fmap, sig, payloads = cdc.encode(c, vals)
+                        except codec.NotCanonical:
+                            chk.count('values-without-canonical-encoding')
+                            continue
                         for d in cdc.directions(c):
                             try:
                                 frame = cdc.canonical_frame(c, body, d)
